@@ -139,11 +139,9 @@ Definition w_ratio_radix := (Pcfg 2 true CDown false 80 true true true, ORat 3 4
 Definition w_array_radix := (Pcfg 10 true CDown false 80 true true true, OArr 2 [OList [fx 1; fx 2]; OList [fx 3; fx 4]]).
 (* the symbol named t is printed t (the suite pins this: the symbol t doubles as the name of the type t) *)
 Definition w_symbol_t := (cfg_flat, OSym [116]).
-(* #\( *)
-Definition w_char_paren := (cfg_flat, OChr 40).
 
 Definition refutation_witnesses : list (pcfg * obj) :=
-  [w_string_quote; w_single_float; w_integral_double; w_ratio_radix; w_array_radix; w_symbol_t; w_char_paren].
+  [w_string_quote; w_single_float; w_integral_double; w_ratio_radix; w_array_radix; w_symbol_t].
 Theorem outside_guard_refuted : forallb (fun w => refuted (fst w) (snd w)) refutation_witnesses = true.
 Proof. vm_compute. reflexivity. Qed.
 (* what the model makes of some of them *)
@@ -163,6 +161,10 @@ Proof. vm_compute. reflexivity. Qed.
 (* repaired (C03-12): the NUL character is printed #\Null *)
 Example nul_character_named : model_text cfg_flat (OChr 0) = Some [35; 92; 78; 117; 108; 108] /\
   model_read (model_text cfg_flat (OChr 0)) = Some [OChr 0].
+Proof. vm_compute. split; reflexivity. Qed.
+(* repaired (C03-13): #\( is printed #\u0028 *)
+Example paren_character_by_code : model_text cfg_flat (OChr 40) = Some [35; 92; 117; 48; 48; 50; 56] /\
+  model_read (model_text cfg_flat (OChr 40)) = Some [OChr 40].
 Proof. vm_compute. split; reflexivity. Qed.
 Example integral_double_reads_fixnum : model_read (model_text (fst w_integral_double) (snd w_integral_double)) = Some [OInt false 1].
 Proof. vm_compute. reflexivity. Qed.
